@@ -13,15 +13,12 @@ From TV Require Import Base.Prelude Base.C11_Lib Gen.ConstantTime Gen.C11_RsaDec
 Import ListNotations.
 Open Scope Z_scope.
 
-Definition hmac_ok (hmac : list Z -> list Z -> list Z) : Prop :=
-  (forall k m, zlen (hmac k m) = 32) /\ (forall k m, all_bytes (hmac k m) = true).
-Definition key_size_ok (n : Z) : Prop := 11 <= numBytes n <= 65535.
 
 (* the constant-time code equals the plain specification, for every key size and ciphertext *)
 Theorem decrypt_eq_spec : forall hash hmac raw n d enc,
   hmac_ok hmac -> (forall m, 0 <= raw m) -> key_size_ok n -> 0 <= d ->
   decrypt hash hmac raw true n d "rsa"%string enc = Ok (spec_decrypt hash hmac raw n d enc).
-Proof. intros hash hmac raw n d enc [H1 H2] R K D. exact (decrypt_eq_spec_all hash hmac raw H1 H2 R n d enc K D). Qed.
+Proof. exact decrypt_eq_spec_w. Qed.
 
 (* total: a byte string (at most k-11 bytes) for every ciphertext of the right length below n;
    None exactly for the publicly invalid ones; never an exception *)
@@ -32,7 +29,7 @@ Theorem decrypt_total : forall hash hmac raw n d enc,
                /\ zlen m <= numBytes n - 11) /\
   (~ (zlen enc = numBytes n /\ bytesToNumber enc < n) ->
      decrypt hash hmac raw true n d "rsa"%string enc = Ok None).
-Proof. intros hash hmac raw n d enc [H1 H2] R K D. exact (decrypt_total_all hash hmac raw H1 H2 R n d enc K D). Qed.
+Proof. exact decrypt_total_w. Qed.
 
 (* the specification's validity test is exactly the format 00 02 PS 00 M, |PS| >= 8, PS non-zero *)
 Theorem unpad_is_format : forall em m, pkcs1_unpad em = Some m <-> pkcs1_format em m.
@@ -52,7 +49,7 @@ Theorem decrypt_by_format : forall hash hmac raw n d enc,
      decrypt hash hmac raw true n d "rsa"%string enc =
      Ok (Some (skipn (Z.to_nat (k - synth_len k (prf_spec hmac kdk label_length 2048)))
                      (prf_spec hmac kdk label_message (k * 8))))).
-Proof. intros hash hmac raw n d enc [H1 H2]. exact (decrypt_by_format_all hash hmac raw n d enc H1 H2). Qed.
+Proof. exact decrypt_by_format_w. Qed.
 
 (* 2-safety: for the same ciphertext (hence the same PRF stream) any two invalid decrypted
    blocks give the same result: it depends on the decrypted bytes only through validity *)
@@ -61,7 +58,7 @@ Theorem synthetic_independent_of_defect : forall hash hmac raw1 raw2 n d enc,
   pkcs1_unpad (be_bytes (Z.to_nat (numBytes n)) (raw1 (bytesToNumber enc))) = None ->
   pkcs1_unpad (be_bytes (Z.to_nat (numBytes n)) (raw2 (bytesToNumber enc))) = None ->
   decrypt hash hmac raw1 true n d "rsa"%string enc = decrypt hash hmac raw2 true n d "rsa"%string enc.
-Proof. intros hash hmac raw1 raw2 n d enc [H1 H2]. exact (synthetic_independent_all hash hmac raw1 raw2 n d enc H1 H2). Qed.
+Proof. exact synthetic_independent_of_defect_w. Qed.
 
 (* ... and its length is a function of key size and the ciphertext-derived "length" stream only *)
 Theorem invalid_length_independent_of_defect : forall hash hmac raw n d enc,
@@ -71,7 +68,7 @@ Theorem invalid_length_independent_of_defect : forall hash hmac raw n d enc,
   exists m, decrypt hash hmac raw true n d "rsa"%string enc = Ok (Some m) /\
             zlen m = synth_len (numBytes n)
                        (prf_spec hmac (hmac (hash (be_bytes (Z.to_nat (numBytes n)) d)) enc) label_length 2048).
-Proof. intros hash hmac raw n d enc [H1 H2]. exact (invalid_result_length hash hmac raw n d enc H1 H2). Qed.
+Proof. exact invalid_length_independent_of_defect_w. Qed.
 
 (* 128 candidates; mask = smallest 2^t-1 >= k-10; last candidate < k-10 (i.e. <= k-11), else 0 *)
 Theorem synth_len_rule : forall k lr,
@@ -88,7 +85,7 @@ Proof. exact synth_len_rule_all. Qed.
 Theorem dec_prf_is_prf : forall hmac key label L,
   hmac_ok hmac -> 0 <= L -> L mod 8 = 0 ->
   dec_prf hmac key label L = Ok (prf_spec hmac key label L).
-Proof. intros hmac key label L [H1 H2]. exact (dec_prf_spec hmac H1 H2 key label L). Qed.
+Proof. exact dec_prf_is_prf_w. Qed.
 
 (* processClientKeyExchange: never raises, always 48 bytes, the decrypted value only when
    it is a 48-byte string with an acceptable version, the random premaster otherwise *)
@@ -123,12 +120,7 @@ Theorem server_choice_noninterference :
      run cke1 epms1 = run cke2 epms2 /\ run cke1 epms1 = [SendAlert 2 bad_record_mac]) /\
   (forall dec cv sv tb cke epms later e,
      ~ In (Crash e) (server_after_cke dec rnd master_of unprotect verify_data finished_body cv sv tb cke epms later)).
-Proof.
-  intros rnd master_of unprotect verify_data finished_body. split; [|split].
-  - exact (ni_in_secret rnd master_of unprotect verify_data finished_body).
-  - exact (ni_two_messages rnd master_of unprotect verify_data finished_body).
-  - exact (server_no_crash rnd master_of unprotect verify_data finished_body).
-Qed.
+Proof. exact server_choice_noninterference_all. Qed.
 
 (* ---- the hypotheses are satisfiable, and the statements are not vacuous ------------- *)
 Definition toy_hmac (k m : list Z) : list Z :=
